@@ -21,7 +21,7 @@ import (
 	"go.etcd.io/bbolt/verifh/drv"
 )
 
-const c03Rule = "generated concurrent programs: 2-12 goroutines, each a generated list of calls from {Update whose body reads four counters, bumps one and writes a per-transaction log key, ending in commit / returned error / panic; manual Begin(true) + same body + Rollback or Commit; View; Begin(false) + read + Rollback; Batch; Stats}; optionally one goroutine calls Close at a generated point; GOMAXPROCS in {2,4,16}; hook callbacks yield at every I/O call; built with -race. Oracle (schedule independent): (i) no two write bodies overlap in time; (ii) the committed bodies sorted by tx id carry consecutive ids starting at last-committed+1, each read exactly the state its predecessor produced (serial replay), non-committing bodies leave no trace (final dump = serial replay of the committed ones) ; (iii) every read transaction saw exactly the state of the version its tx id names; (iv) the race detector reports nothing; (v) the program terminates within the deadline; after Close every call returns ErrDatabaseNotOpen. Non-trivial = at least one Begin(true) had to wait for another write body, and a non-committing body ran between two committing ones. Distinct = SHA-256 of the program."
+const c03Rule = "generated concurrent programs: 2-12 goroutines, each a generated list of calls from {Update whose body reads four counters, bumps one and writes a per-transaction log key, ending in commit / returned error / panic; manual Begin(true) + same body + Rollback or Commit; View; Begin(false) + read + Rollback; Batch (MaxBatchSize in {0,1,2,3,1000}, MaxBatchDelay in {0,1,10 ms}); Stats}; optionally one goroutine calls Close at a generated point; GOMAXPROCS in {2,4,16}; hook callbacks yield at every I/O call; built with -race. Oracle (schedule independent): (i) no two write bodies overlap in time; (ii) the committed bodies sorted by tx id carry consecutive ids starting at last-committed+1, each read exactly the state its predecessor produced (serial replay), non-committing bodies leave no trace (final dump = serial replay of the committed ones) ; (iii) every read transaction saw exactly the state of the version its tx id names; (iv) the race detector reports nothing; (v) the program terminates within the deadline; after Close every call returns ErrDatabaseNotOpen. Non-trivial = at least one Begin(true) had to wait for another write body, and a non-committing body ran between two committing ones. Distinct = SHA-256 of the program."
 
 type c03Call struct {
 	Kind    string `json:"kind"`    // update manual view beginro batch stats close
@@ -34,6 +34,8 @@ type c03Prog struct {
 	Routines   [][]c03Call `json:"routines"`
 	GoMaxProcs int         `json:"gomaxprocs"`
 	Freelist   string      `json:"freelist"`
+	BatchSize  int         `json:"max_batch_size"`
+	DelayMs    int         `json:"max_batch_delay_ms"`
 }
 
 type c03Body struct {
@@ -68,7 +70,8 @@ func c03Run(p c03Prog) (v *drv.Violation, waited bool, mixed bool) {
 	}
 	drv.SetDefaultOnEvent(func(ev *bolt.VerifEvent) error { runtime.Gosched(); return nil })
 	defer drv.SetDefaultOnEvent(nil)
-	db.MaxBatchDelay = time.Millisecond
+	db.MaxBatchDelay = time.Duration(p.DelayMs) * time.Millisecond
+	db.MaxBatchSize = p.BatchSize
 	if err := db.Update(func(tx *bolt.Tx) error {
 		if _, err := tx.CreateBucket([]byte("s")); err != nil {
 			return err
@@ -366,7 +369,8 @@ func TestC03(t *testing.T) {
 	col := newCollector("C03", c03Rule)
 	defer col.Flush()
 	rapid.Check(t, func(rt *rapid.T) {
-		p := c03Prog{GoMaxProcs: rapid.SampledFrom([]int{2, 4, 16}).Draw(rt, "gomaxprocs"), Freelist: rapid.SampledFrom([]string{"array", "hashmap"}).Draw(rt, "freelist")}
+		p := c03Prog{GoMaxProcs: rapid.SampledFrom([]int{2, 4, 16}).Draw(rt, "gomaxprocs"), Freelist: rapid.SampledFrom([]string{"array", "hashmap"}).Draw(rt, "freelist"),
+			BatchSize: rapid.SampledFrom([]int{0, 1, 2, 3, 1000}).Draw(rt, "batchsize"), DelayMs: rapid.SampledFrom([]int{0, 0, 1, 10}).Draw(rt, "delay")}
 		nr := rapid.IntRange(2, 12).Draw(rt, "routines")
 		withClose := rapid.IntRange(0, 3).Draw(rt, "close") == 0
 		for r := 0; r < nr; r++ {
